@@ -106,6 +106,19 @@ def i_seq_flatmap(I, args, kwargs):
     return _mk(out)
 
 
+def i_seq_fold(I, args, kwargs):
+    """seq_fold(f, init, xs): left fold.  Explicit items are folded by calling f; an opaque part P contributes the
+    uninterpreted term fold<f>(acc, P) - so fold(f, a, P + [x]) is, by construction, f(fold(f, a, P), x)."""
+    from .values import Opaque
+    f, acc, xs = args
+    for kind, v in _segs(I, xs):
+        if kind == "i":
+            acc = I.call(f, [acc, v])
+        else:
+            acc = Opaque("fold", [fkey(I, f), acc, OSeq([("o", v)])])
+    return acc
+
+
 def _mk(segs):
     if all(k == "i" for k, _ in segs):
         return [v for _, v in segs]
@@ -204,7 +217,7 @@ def i_ghost_call(I, args, kwargs):
 
 
 INTRINSICS = {"ghost_call": i_ghost_call, "first_index": i_first_index, "seq_at": i_seq_at, "seq_remove_at": i_seq_remove_at, "seq_replace_at": i_seq_replace_at,
-              "seq_map": i_seq_map, "seq_filter": i_seq_filter, "seq_flatmap": i_seq_flatmap, "opaque": i_opaque}
+              "seq_map": i_seq_map, "seq_filter": i_seq_filter, "seq_fold": i_seq_fold, "seq_flatmap": i_seq_flatmap, "opaque": i_opaque}
 
 
 # ------------------------------------------------------------------ loop rule
